@@ -3,6 +3,7 @@ import Spine.RobThm
 import Spine.RobEv
 import Spine.Wedge
 import Spine.Dispatch
+import Spine.DispatchServe
 /-!
 # C05 — no inbound byte sequence can crash or wedge the stack
 
@@ -44,7 +45,10 @@ What is a theorem here and what is not:
   with exactly one reply iff the peer's node-management feature is still known (`c05_still_serves`,
   `c05_wedged_is_silent`). The invariant `c05_nm_present` is *refuted* for the code as written by three witnesses
   (`c05_nm_present_refuted`), holds on the region `c05_nm_present_partial`, and is *proved* for the member with
-  the two guards (`c05_nm_present`).
+  the two guards (`c05_nm_present`). The bridge between the two models is a theorem (`c05_nm_bridge`, composition
+  `c05_still_serves_after_discovery`), and in the dispatch model the clause holds at full strength — all histories
+  of operations of any peers, every peer that is not itself disconnected (`c05_still_serves_every_peer`; lemmas
+  `Spine/DispatchServe.lean`).
 * **Not a theorem here** (`Res.outside` of `handle`): payloads handled by the generic feature layer and the update
   engine (read / reply / notify / write of function data with filters: the model of C02 / C04, whose repaired
   member is total at the two sites the mutator found there — `Spine.Props.C02.c02_repaired_selectormatch_never_panics`,
@@ -521,5 +525,106 @@ example :
     Disc.nmPresent (Disc.replyKeep { ents := [Disc.mkEI [0] 0 .none], feats := [] } tree0).1 = true ∧
     ((Disc.notifyFullKeep { ents := [], feats := [] } tree0).1.map (·.addr)) = [[0]] := by
   decide
+
+/-! ## still serves, at full strength: every history, every other peer, and the bridge between the two models -/
+
+/-- The bridge between the two models of "the peer's node-management feature is known" (until now: by reading): if
+    the remote-tree model `Spine.Disc` and the dispatch world `Spine.Disp` describe the same peer — `Disc.AgreeD`, the
+    abstraction relation that `c06_dispatch_full_agrees` shows the full announcement preserves — then the invariant
+    of `c05_nm_present` (entity `[0]` of the tree carries feature `0`) IS the hypothesis of `c05_still_serves` (the
+    dispatch world finds the source feature `([0], 0)` of the peer's discovery read). -/
+theorem c05_nm_bridge (t : Disc.Tree) (w : Disp.W) (p : Nat) (hA : Disc.AgreeD t (w.peers p).feats) (d : Disp.Dg)
+    (hs : d.src = Disp.nmAddr) : Disc.nmPresent t = (Disp.srcF w p d).isSome := by
+  rw [Disp.srcF_nm_isSome w p d hs]; exact Disc.nm_bridge t w p hA
+
+/-- non-vacuity: a tree (node management, and an entity without features) and a dispatch world that agree; the
+    same tree does not agree with a world that has lost the peer's node management -/
+example : Disc.AgreeD tree0 [{ ent := [0], feat := 0, fds := [] }] ∧ Disc.nmPresent tree0 = true ∧
+    ¬ Disc.AgreeD tree0 [] := by
+  refine ⟨?_, by decide, ?_⟩
+  · intro a i
+    by_cases h0 : a = [0]
+    · subst h0; simp [Disc.idsAt, Disc.dispAt, tree0, Disc.t0, Disc.findE]
+    · by_cases h2 : a = [2]
+      · subst h2; simp [Disc.idsAt, Disc.dispAt, tree0, Disc.t0, Disc.findE]
+      · have e0 : ([0] : List Nat) ≠ a := fun h => h0 h.symm
+        have e2 : ([2] : List Nat) ≠ a := fun h => h2 h.symm
+        simp [Disc.idsAt, Disc.dispAt, tree0, Disc.t0, Disc.findE, e0, e2]
+  · intro h
+    have := (h [0] 0).mp (by simp [Disc.idsAt, tree0, Disc.t0, Disc.findE])
+    simp [Disc.dispAt] at this
+
+/-- Composition of the three: whatever discovery message (reply, partial or full notification — also one that lists
+    nothing, marks `[0]` removed or re-announces `[0]` without feature `0`) the repaired handlers apply to a tree
+    that had node management, every dispatch world that agrees with the resulting tree answers the peer's next
+    discovery read with exactly one reply. -/
+theorem c05_still_serves_after_discovery (m : Disc.Msg) (t : Disc.Tree) (h : Disc.nmPresent t = true)
+    (w : Disp.W) (p : Nat) (dst : List Nat × Nat) (ctr : Nat) (lf : Disp.LF)
+    (hd : Disp.dstF w (discRead Disp.nmAddr dst ctr) = some lf) (hnm : lf.nm = true)
+    (hA : Disc.AgreeD (Disc.replyKeep m t).1 (w.peers p).feats ∨
+          Disc.AgreeD (Disc.notifyPartialKeep m t).1 (w.peers p).feats ∨
+          Disc.AgreeD (Disc.notifyFullKeep m t).1 (w.peers p).feats) :
+    (Disp.processCmd w p (discRead Disp.nmAddr dst ctr)).2 = [(p, .reply (some ctr) 901 dst Disp.nmAddr 0 (some 0))] := by
+  obtain ⟨h1, h2, h3⟩ := c05_nm_present m t h
+  have hs : (Disp.srcF w p (discRead Disp.nmAddr dst ctr)).isSome = true := by
+    rcases hA with hA | hA | hA
+    · rw [← c05_nm_bridge _ w p hA _ rfl]; exact h1
+    · rw [← c05_nm_bridge _ w p hA _ rfl]; exact h2
+    · rw [← c05_nm_bridge _ w p hA _ rfl]; exact h3
+  cases hsf : Disp.srcF w p (discRead Disp.nmAddr dst ctr) with
+  | none => rw [hsf] at hs; cases hs
+  | some rf => exact c05_still_serves w p Disp.nmAddr dst ctr rf lf hsf hd hnm
+
+/-- C05, second sentence at full strength in the dispatch model — ALL histories, EVERY peer: let `q` be a connected
+    peer (its node management is known) and let `ops` be any history of operations of ANY peers — datagrams of every
+    classifier with or without counter / reference / result data, to known or unknown destinations; binding and
+    subscription calls; partial notifications that remove or add any entity, `[0]` included; full announcements that
+    list anything; re-announcements; disconnects and connects of the OTHER peers; local data changes — in which `q`
+    itself is not disconnected. Then `q`'s discovery read is answered with exactly one reply, on `q`'s connection,
+    referencing the read. Every member of the family. `FreshNM`: the announcement set of a peer contains its node
+    management (without it a "connected" peer never was). -/
+theorem c05_still_serves_every_peer (w0 : Disp.W) (ops : List Disp.Op) (q : Nat) (dst : List Nat × Nat) (ctr : Nat)
+    (lf : Disp.LF) (hc : Disp.connected w0 q = true) (hF : Disp.FreshNM w0)
+    (hdrop : ∀ p, Disp.Op.drop p ∈ ops → p ≠ q)
+    (hd : Disp.dstF w0 (discRead Disp.nmAddr dst ctr) = some lf) (hnm : lf.nm = true) :
+    (Disp.processCmd (Disp.run w0 ops) q (discRead Disp.nmAddr dst ctr)).2 =
+      [(q, .reply (some ctr) 901 dst Disp.nmAddr 0 (some 0))] := by
+  have hcon := Disp.connected_run ops w0 q hc hF hdrop
+  rw [← Disp.srcF_nm_isSome (Disp.run w0 ops) q (discRead Disp.nmAddr dst ctr) rfl] at hcon
+  have hd' : Disp.dstF (Disp.run w0 ops) (discRead Disp.nmAddr dst ctr) = some lf := by
+    unfold Disp.dstF at hd ⊢; rw [Disp.loc_run]; exact hd
+  cases hsf : Disp.srcF (Disp.run w0 ops) q (discRead Disp.nmAddr dst ctr) with
+  | none => rw [hsf] at hcon; cases hcon
+  | some rf => exact c05_still_serves _ q Disp.nmAddr dst ctr rf lf hsf hd' hnm
+
+/-- two peers with node management and one more entity each; the announcement set contains node management -/
+def exW2 : Disp.W :=
+  { exW with
+    peers := fun _ => { feats := [{ ent := [0], feat := 0, fds := [] }, { ent := [1], feat := 1, fds := [] }], msgNum := 0, req := [] }
+    fresh := { feats := [{ ent := [0], feat := 0, fds := [] }, { ent := [1], feat := 1, fds := [] }], msgNum := 0, req := [] }
+    cfg := Disp.Cfg.clean }
+
+/-- a history in which peer 1 does its worst: marks `[0]` removed, sends a full announcement that lists nothing,
+    a result without reference or result data to an unknown feature, a read without counter, and disconnects -/
+def worst : List Disp.Op :=
+  [.entRem 1 [0] 7 true, .full 1 [] 8 true, .entRem 1 [1] 9 false,
+   .dg 1 { src := ([0], 0), dst := ([9], 9), ctr := none, ref := none, cls := .result, ack := true, fn := 5, noErr := true },
+   .dg 1 { src := ([0], 0), dst := ([0], 0), ctr := none, ref := none, cls := .read, ack := false, fn := 901 },
+   .drop 1]
+
+/-- non-vacuity: the hypotheses hold for peer 2 over `worst` (and for peer 1 up to its disconnect), the history is
+    not a no-op (peer 1 loses entity `[1]`, then everything), and after its disconnect peer 1 is answered nothing -/
+example : Disp.connected exW2 2 = true ∧ Disp.FreshNM exW2 ∧ (∀ p, Disp.Op.drop p ∈ worst → p ≠ 2) ∧
+    (∀ p, Disp.Op.drop p ∈ worst.dropLast → p ≠ 1) ∧
+    (Disp.dstF exW2 (discRead Disp.nmAddr ([0], 0) 5)).isSome = true ∧
+    Disp.entsOf (Disp.run exW2 worst.dropLast) 1 = [[0]] ∧
+    (Disp.processCmd (Disp.run exW2 worst.dropLast) 1 (discRead Disp.nmAddr ([0], 0) 5)).2 =
+      [(1, .reply (some 5) 901 ([0], 0) ([0], 0) 0 (some 0))] ∧
+    (Disp.processCmd (Disp.run exW2 worst) 2 (discRead Disp.nmAddr ([0], 0) 5)).2 =
+      [(2, .reply (some 5) 901 ([0], 0) ([0], 0) 0 (some 0))] ∧
+    (Disp.processCmd (Disp.run exW2 worst) 1 (discRead Disp.nmAddr ([0], 0) 5)).2 = [] := by
+  refine ⟨by decide, by unfold Disp.FreshNM; decide, ?_, ?_, by decide, by decide, by decide, by decide, by decide⟩
+  · intro p hp; simp [worst] at hp; omega
+  · intro p hp; simp [worst] at hp
 
 end Spine.Props.C05
